@@ -11,8 +11,9 @@ for P in seeded/*/patch.diff selftest/mutants/*.diff; do
   else
     # last resort: context lines moved or changed next to the hunk -- let patch(1) place it with fuzz, keep the result
     # only if the sources still compile
-    git -C "$S" checkout -q -- . && git -C "$S" clean -fdq
-    if ( cd "$S" && patch -p1 -F3 -s --no-backup-if-mismatch < "$(realpath "$P")" >/dev/null 2>&1 ) && \
+    git -C "$S" reset -q --hard HEAD && git -C "$S" clean -fdq
+    AP="$(realpath "$P")"
+    if ( cd "$S" && patch -p1 -F3 -s --no-backup-if-mismatch < "$AP" >/dev/null 2>&1 ) && \
        ( cd "$S" && /venv/bin/python -m compileall -q src >/dev/null 2>&1 ); then
       find "$S" -name '*.orig' -delete; find "$S" -name '__pycache__' -type d -prune -exec rm -rf {} +
       git -C "$S" diff HEAD > "$P.new" && mv "$P.new" "$P" && echo "refreshed (fuzzy) $P"
